@@ -107,7 +107,7 @@ pub struct PlanR {
     /// context kinds: 0 Minimal::new, 1 Minimal::default, 2 Plain::new, 3 Plain::default
     pub ctxs: Vec<u8>,
     pub events: Vec<Ev>,
-    /// seed of the identifier source behind OpHandle (hook H3). 0: not seeded (plans
+    /// seed of the identifier source behind OpHandle (vendored uuid, DESIGN §2 "H3"). 0: not seeded (plans
     /// recorded before the hook existed); otherwise bit 0 selects identifiers which
     /// differ from a common base in one 16 bit field only
     #[serde(default)]
@@ -518,7 +518,7 @@ impl Engine for RegSim {
         EngineInfo {
             rule: "regsim: one run = up to four contexts (seeded mix of Minimal::new/default and Plain::new/default) sharing one scratch disk with the two search roots (./geodesy and $XDG_DATA_HOME/geodesy) and the process wide grid cache, driven through a seeded history of register_resource (new names, re-registration, built-in adaptor names, a name without colon), register_op (new names, names of built-ins, a colon name, a constructor that refuses), op (definitions over built-ins, user operators, run-time and file macros incl. nested and self-referential ones, grid operators incl. optional grids, unknown names, with/without inv), apply/steps/params (own, foreign and forged handles), Plain::clear_grids, and disk events (write/replace/delete/break resource files and registers in either root; register layouts: several fenced items in any order, item first in file, item last without terminator, unrelated fenced blocks, LF/CRLF/CR; write/replace/delete constant-valued grid files). Reference model: regmodel.rs (documented resolution order over an exactly representable translation algebra). After every event: the outcome equals the model's, and every operator ever created in any context still has its creation-time fingerprint (outputs on probes both directions, step list, first step's parameters). Non-trivial = at least one op() after at least one registration or disk event; distinct = hash of the event-kind sequence with name classes.",
             real_components: &["geodesy Minimal and Plain contexts, Op::op resolution, macro expansion, grid cache, gridshift/helmert/addone operators", "std::fs on a tmpfs scratch tree with two search roots"],
-            simulated_components: &["the history of API calls across contexts", "resource/register/grid file contents and their faults (absent, directory in place, invalid UTF-8, dangling symlink, replaced while cached)", "the identifier source behind OpHandle (hook H3: seeded, pairwise distinct version 4 UUIDs, in about half of the runs differing from a common base in one 16 bit field only)"],
+            simulated_components: &["the history of API calls across contexts", "resource/register/grid file contents and their faults (absent, directory in place, invalid UTF-8, dangling symlink, replaced while cached)", "the identifier source behind Uuid::new_v4 (vendored uuid 1.26.1 patched into the simulator build: seeded, pairwise distinct version 4 UUIDs, in about half of the runs differing from a common base in one 16 bit field only)"],
             assumptions: &[
                 "macro invocations carry no arguments (argument passing is C04's subject), so that a macro's value is its body's value",
                 "the sequential cache model is exact: a grid lookup is served from the cache if the name is cached, else from the first root holding the file",
@@ -732,8 +732,8 @@ impl Engine for RegSim {
             rec.probe("context_created_before_its_search_roots");
         }
         Plain::verif_reset_grids();
-        // the identifiers of this run's handles: a function of the plan (hook H3)
-        geodesy::verif_seam::uuid::seed(if plan.ids == 0 { None } else { Some((plan.ids, plan.ids & 1 == 1)) });
+        // the identifiers of this run's handles: a function of the plan (vendored uuid, DESIGN §2 "H3")
+        uuid::verif_source::seed(if plan.ids == 0 { None } else { Some((plan.ids, plan.ids & 1 == 1)) });
         if plan.ids & 1 == 1 {
             rec.probe("handles_differ_in_one_16_bit_field_only");
         }
